@@ -154,6 +154,13 @@ void f_read_file (void) {
     start = 0;
 
   str = read_file (sp->u.string, start, len);
+  /* read_file() is limited by the maximum read file size only; a text longer
+   * than the maximum string length is refused like a file that is too large */
+  if (str && COUNTED_STRLEN (str) > (size_t)CONFIG_INT (__MAX_STRING_LENGTH__))
+    {
+      FREE_MSTR (str);
+      str = 0;
+    }
   free_string_svalue (sp);
   if (!str)
     *sp = const0;
